@@ -331,6 +331,10 @@ fn task_running(
             worker_map
                 .get_worker_mut(worker_id)
                 .insert_sn_task(task_id, rqv.get(rv_id));
+            // If the task has no new target (yet), it is waiting in the ready queue
+            task_queues
+                .get_mut(task.resource_rq_id)
+                .remove(task.id, task.priority());
             (simple_worker_list.as_slice(), false)
         }
         TaskRuntimeState::RunningMultiNode(ws) => {
